@@ -38,6 +38,9 @@ def gen_struct(c, depth, top=True):
     return [["t", "l", "d", "t"][k - 3], kids]
 
 
+DICT_KEYS = ["w", "b", "z", "a"]
+
+
 def build(struct, leaf_fn, counter):
     t = struct[0]
     if t in ("f", "a"):
@@ -48,7 +51,7 @@ def build(struct, leaf_fn, counter):
         return tuple(kids)
     if t == "l":
         return kids
-    return {"k%d" % i: kid for i, kid in enumerate(kids)}
+    return {DICT_KEYS[i]: kid for i, kid in enumerate(kids)}  # insertion order differs from sorted key order
 
 
 def depth_of(struct):
@@ -189,13 +192,14 @@ def leafwise(v):
     if isinstance(v, (tuple, list)):
         return [l for e in v for l in leafwise(e)]
     if isinstance(v, dict):
-        return [l for k in v for l in leafwise(v[k])]
+        # canonical key order (the order build() inserts them in): a dict is the same value whatever order it iterates in
+        return [l for k in sorted(v, key=lambda k_: DICT_KEYS.index(k_) if k_ in DICT_KEYS else len(DICT_KEYS)) for l in leafwise(v[k])]
     return [v]
 
 
 def same_structure(a, b):
     if isinstance(a, dict) or isinstance(b, dict):
-        return isinstance(a, dict) and isinstance(b, dict) and list(a) == list(b) and all(same_structure(a[k], b[k]) for k in a)
+        return isinstance(a, dict) and isinstance(b, dict) and set(a) == set(b) and all(same_structure(a[k], b[k]) for k in a)
     if isinstance(a, (tuple, list)) or isinstance(b, (tuple, list)):
         return type(a) is type(b) and len(a) == len(b) and all(same_structure(x, y) for x, y in zip(a, b))
     return onp.shape(a) == onp.shape(b)
